@@ -667,6 +667,29 @@ PROPS["C07"] = dict(
                  "retry() yields instead of blocking when run under the scheduler"],
 )
 
+VTK_CLASSES = {"1": "export or import failed on a mesh within the premise", "2": "vertex coordinates differ", "3": "faces differ",
+               "4": "interior adjacency differs", "5": "boundary differs", "6": "imported map ill-formed", "7": "C11:slit-resewn"}
+PROPS["C11"] = dict(
+    level="translation_validation",
+    level_text="per-run validator written in Coq: Extract/VtkOracle.v describes a mesh up to dart renaming (multiset of vertex "
+               "coordinates, faces as cyclic coordinate sequences with orientation, interior sides with the two faces they separate, "
+               "boundary sides) and decides, on the implementation's own observations, (a) exported-then-imported map = original mesh "
+               "for grids, split grids, remeshed triangle meshes, polygons up to 12 sides, ASCII and binary, and (b) imported map = "
+               "the mesh of a conforming cell list (triangles, quads, polygons over lattice points; non-conforming lists skipped). "
+               "Proved: the validator's multiset comparison is sound (C11_validator_multiset_sound). No model of the exporter / "
+               "importer is claimed; f32 coordinates are not exercised",
+    technique="Coq-defined mesh-isomorphism validator applied to every export/import and import run (+ soundness lemma of its multiset comparison)",
+    families=[
+        Family("vtk-roundtrip", "vtk", lambda tier, seed: ["--mode", "roundtrip", "--cases", {"quick": "400", "thorough": "6000"}[tier]], None,
+               [(70, "vtk_roundtrip", VTK_CLASSES)]),
+        Family("vtk-import", "vtk", lambda tier, seed: ["--mode", "import", "--cases", {"quick": "400", "thorough": "6000"}[tier]], None,
+               [(71, "vtk_import", VTK_CLASSES)]),
+    ],
+    trusted=PROPS["C01"]["trusted"][:3] + ["vtkio (writer and parser) is exercised, not modelled"],
+    assumptions=["meshes with faces of fewer than three sides, undefined vertices or an ill-formed map are outside the premise (skipped)",
+                 "coordinates are f64; points of import lists lie on a small integer lattice"],
+)
+
 # ---- 3-map families of the cross-dimensional properties
 C03_CLASSES3 = {"1": "orbit differs from the closure of the policy's generators and inverses", "2": "transactional orbit differs from the plain one",
                 "3": "cell identifier is not the smallest dart of the cell", "4": "cell iterator wrong",
@@ -805,6 +828,7 @@ def verdict(pid, tier, seed, cfg, pr, tr_msgs, results, t0):
                  "implementation and replayed in the extracted Coq model; a case is non-trivial when at least one "
                  "operation succeeded and changed the observable state; distinct = distinct case lines",
             traces_validated_against_impl=sum(r["cases"] for r in results if not r["diffs"] and not r.get("error")),
+            programs=sum(r["cases"] for r in results), disagreements_checked=len(diffs) + len(ofails),
             oracle_checked=sum(r["oracle_ok"] for r in results),
             oracle_out_of_contract=sum(r["oracle_skipped"] for r in results),
             disagreements=len(diffs), families=[dict(name=r["name"], cases=r["cases"], observations=r["evaluations"],
